@@ -25,6 +25,7 @@ Not decided: that the parsed list equals the source list, hoisted inner names fo
     kindmap(m, ctx);
     wrap(m, ctx);
     defname(m, ctx, "C02.defname");
+    rebuild(m, ctx, "C02.rebuild");
     // anonymous nested types are emitted wherever they are referred to (shared with C01.defined)
     crate::rules::c01::defined(m, ctx, "C02.nested");
 }
@@ -88,6 +89,128 @@ pub fn defname(m: &Model, ctx: &mut Ctx, rule: &str) {
         }
     }
     ctx.floor(&format!("{}/drivers", rule), drivers, 1);
+}
+
+/// Rebuild-preserves rule (C02.rebuild / C03.rebuild): `resolve_class_reference` consumes a type and rebuilds it with the
+/// class-field types replaced. Whatever it does not resolve must come out as it went in: the kind of every node
+/// (SET OF stays SET OF), component names, tags, element tags, optionality, extension index, constraints of
+/// collections. Both rebuilders (ASN1Type and SequenceOrSet) are evaluated on a nested sample type and the result is
+/// compared with the input field by field.
+pub fn rebuild(m: &Model, ctx: &mut Ctx, rule: &str) {
+    use crate::eval::{Env, Evaluator, Val};
+    use std::collections::BTreeMap;
+    let ty_fn = m.fns.iter().find(|f| f.name == "resolve_class_reference" && f.self_ty.as_deref() == Some("ASN1Type"));
+    let seq_fn = m.fns.iter().find(|f| f.name == "resolve_class_reference" && f.self_ty.as_deref() == Some("SequenceOrSet"));
+    let (Some(ty_fn), Some(seq_fn)) = (ty_fn, seq_fn) else {
+        ctx.fail_closed(rule, "anchor not found: ASN1Type / SequenceOrSet ::resolve_class_reference");
+        return;
+    };
+    ctx.func(&ty_fn.key);
+    ctx.func(&seq_fn.key);
+    let consts = const_resolver(m);
+    let ty_block = ty_fn.block.clone();
+    let seq_block = seq_fn.block.clone();
+    let hook = move |ev: &Evaluator, name: &str, a: &[Val]| -> Option<Result<Val, String>> {
+        match (name, a.first()) {
+            (".resolve_class_reference", Some(recv @ Val::Ctor(n, _, _))) => {
+                let mut env = Env::new();
+                env.insert("self".into(), recv.clone());
+                env.insert("tlds".into(), Val::Opaque("tlds".into()));
+                Some(ev.eval_fn_body(if n == "SequenceOrSet" { &seq_block } else { &ty_block }, &mut env))
+            }
+            (".resolve_class_reference", Some(o)) => Some(Ok(o.clone())),
+            (".reassign_type_for_ref", Some(_)) => Some(Ok(Val::Ctor("RESOLVED".into(), vec![], BTreeMap::new()))),
+            ("Box::new", Some(v)) => Some(Ok(v.clone())),
+            _ => None,
+        }
+    };
+    let ev = Evaluator { consts: &consts, call_hook: &hook, inline: None };
+    let named = |n: &str, fields: Vec<(&str, Val)>| Val::Ctor(n.into(), vec![], fields.into_iter().map(|(k, v)| (k.to_string(), v)).collect());
+    let wrap = |n: &str, inner: Val| Val::Ctor(n.into(), vec![inner], BTreeMap::new());
+    let tag = |id: i128| Val::some(named("AsnTag", vec![("id", Val::int(id)), ("tag_class", Val::ctor("ContextSpecific")), ("environment", Val::ctor("Explicit"))]));
+    let leaf = || wrap("Boolean", Val::Opaque("b".into()));
+    let class_field = || wrap("ObjectClassField", Val::Opaque("ocf".into()));
+    let coll = |kind: &str, el: Val, etag: Val| wrap(kind, named("SequenceOrSetOf", vec![("element_type", el), ("element_tag", etag), ("constraints", Val::List(vec![Val::Sym("SIZE-1-4".into())])), ("is_recursive", Val::Bool(false))]));
+    let member = |name: &str, t: Val, ty: Val, opt: &str| named("SequenceOrSetMember", vec![("name", Val::Str(name.into())), ("tag", t), ("ty", ty), ("optionality", Val::ctor(opt)), ("is_recursive", Val::Bool(false)), ("constraints", Val::List(vec![]))]);
+    let option = |name: &str, t: Val, ty: Val| named("ChoiceOption", vec![("name", Val::Str(name.into())), ("tag", t), ("ty", ty), ("is_recursive", Val::Bool(false)), ("constraints", Val::List(vec![]))]);
+    let seq = |kind: &str, members: Vec<Val>| wrap(kind, named("SequenceOrSet", vec![("members", Val::List(members)), ("extensible", Val::some(Val::int(1))), ("components_of", Val::List(vec![])), ("constraints", Val::List(vec![Val::Sym("WITH-COMPONENTS".into())]))]));
+    let choice = |options: Vec<Val>| wrap("Choice", named("Choice", vec![("options", Val::List(options)), ("extensible", Val::some(Val::int(2))), ("constraints", Val::List(vec![]))]));
+    let sample = seq("Sequence", vec![
+        member("kind", tag(1), class_field(), "Required"),
+        member("values", tag(2), coll("SetOf", leaf(), tag(9)), "Optional"),
+        member("list", Val::none(), coll("SequenceOf", coll("SetOf", class_field(), Val::none()), Val::none()), "Required"),
+        member("alt", tag(3), choice(vec![option("a", tag(5), class_field()), option("b", tag(6), leaf()), option("c", Val::none(), seq("Set", vec![member("x", tag(7), leaf(), "Optional")]))]), "Required"),
+    ]);
+    // expected: the same tree with every ObjectClassField replaced by RESOLVED
+    fn expect(v: &Val) -> Val {
+        match v {
+            Val::Ctor(n, _, _) if n == "ObjectClassField" => Val::Ctor("RESOLVED".into(), vec![], Default::default()),
+            Val::Ctor(n, p, f) => Val::Ctor(n.clone(), p.iter().map(expect).collect(), f.iter().map(|(k, x)| (k.clone(), expect(x))).collect()),
+            Val::List(l) => Val::List(l.iter().map(expect).collect()),
+            o => o.clone(),
+        }
+    }
+    // field-by-field comparison; `constraints` / `is_recursive` of members and alternatives are reset by design
+    fn diff(path: &str, want: &Val, got: &Val, out: &mut Vec<(String, String, String)>) {
+        match (want, got) {
+            (Val::Ctor(n1, p1, f1), Val::Ctor(n2, p2, f2)) => {
+                if n1 != n2 || p1.len() != p2.len() {
+                    out.push((format!("{}:kind", path), n1.clone(), n2.clone()));
+                    return;
+                }
+                for (i, (a, b)) in p1.iter().zip(p2.iter()).enumerate() {
+                    diff(&format!("{}{}", path, if p1.len() > 1 { format!(".{}", i) } else { String::new() }), a, b, out);
+                }
+                for (k, a) in f1 {
+                    if (n1 == "SequenceOrSetMember" || n1 == "ChoiceOption") && (k == "constraints" || k == "is_recursive") {
+                        continue;
+                    }
+                    match f2.get(k) {
+                        Some(b) => diff(&format!("{}.{}", path, k), a, b, out),
+                        None => out.push((format!("{}.{}", path, k), a.show(), "<missing>".into())),
+                    }
+                }
+            }
+            (Val::List(a), Val::List(b)) => {
+                if a.len() != b.len() {
+                    out.push((format!("{}:len", path), a.len().to_string(), b.len().to_string()));
+                    return;
+                }
+                for (i, (x, y)) in a.iter().zip(b.iter()).enumerate() {
+                    let label = match x { Val::Ctor(_, _, f) => match f.get("name") { Some(Val::Str(n)) => n.clone(), _ => i.to_string() }, _ => i.to_string() };
+                    diff(&format!("{}[{}]", path, label), x, y, out);
+                }
+            }
+            (a, b) => {
+                if a != b {
+                    out.push((path.to_string(), a.show(), b.show()));
+                }
+            }
+        }
+    }
+    let mut env = Env::new();
+    env.insert("self".into(), sample.clone());
+    env.insert("tlds".into(), Val::Opaque("tlds".into()));
+    ctx.oblige(rule, "sample-type", true);
+    match ev.eval_fn_body(&ty_fn.block, &mut env) {
+        Ok(got) => {
+            let want = expect(&sample);
+            let mut d = vec![];
+            diff("T", &want, &got, &mut d);
+            for k in ["kind", "tag", "element_tag", "optionality", "extensible", "name", "constraints"] {
+                ctx.oblige(rule, &format!("preserved:{}", k), true);
+            }
+            let mut reported = std::collections::BTreeSet::new();
+            for (path, w, g) in d {
+                let field = path.rsplit(|c| c == '.' || c == ':').next().unwrap_or("").to_string();
+                if reported.insert(field.clone()) {
+                    ctx.violate(rule, &format!("not-preserved:{}", field), &ty_fn.file, ty_fn.line,
+                        &format!("resolve_class_reference rebuilds `{}` as `{}` (was `{}`): everything but the class-field types must come out of the rebuild unchanged — a type that mentions a class field (e.g. ATTRIBUTE.&id) would otherwise lose this part of every component it contains", path, g, w));
+                }
+            }
+        }
+        Err(e) => ctx.fail_closed(rule, &format!("[sample type]: {}", e)),
+    }
 }
 
 fn sym(m: &Model, ctx: &mut Ctx) {
